@@ -1,4 +1,7 @@
 import PV.Proofs.ScoreLemmas
+import PV.Model.Summary
+import PV.Generated.SummaryFacts
+import PV.Generated.ScoreConsts
 /-!
 # C15 — Health score is bounded, monotone and consistently graded
 
@@ -290,5 +293,130 @@ theorem C15_mono_archCompliance (x : F) (hx : x ≤ s.ArchCompliance)
     { NoBetter.refl s with arch := .inr ⟨rfl, hx⟩ }
 
 end single
+
+/-! ## the summary assembly (`calculateSummary`) -/
+
+open PV.Summary in
+/-- **C15 (duplication input).** The duplication percentage derived from clone groups is in [0,10] ⊆ [0,100]
+(so it can never make `Validate` fail) and grows with the number of groups. -/
+theorem C15_dup_range (groups lines : Int) :
+    (Arith.lit 0 1 : F) ≤ duplication F groups lines (Arith.lit 0 1) ∧ duplication F groups lines (Arith.lit 0 1) ≤ (Arith.lit 10 1 : F) := by
+  unfold duplication
+  split
+  · next h =>
+    simp only []
+    have hlk : ∀ x : F, (z : F) < (if x < (Arith.lit 1 1 : F) then (Arith.lit 1 1 : F) else x) := by
+      intro x; split
+      · exact lit_pos (by decide) (by decide)
+      · next hx => exact lt_of_lt_of_le (lit_pos (by decide) (by decide)) (not_lt.mp hx)
+    constructor
+    · apply MonoArith.le_fmin _ _ _ (lit_le (by decide) (by decide) (by decide))
+      exact mul_nonneg (div_nonneg (ofInt_nonneg (by omega)) (hlk _)) (lit_le (by decide) (by decide) (by decide))
+    · exact MonoArith.fmin_le_l _ _
+  · exact ⟨le_rfl' _, lit_le (by decide) (by decide) (by decide)⟩
+
+open PV.Summary in
+theorem C15_dup_mono (g g' lines : Int) (h : g ≤ g') :
+    duplication F g lines (Arith.lit 0 1) ≤ duplication F g' lines (Arith.lit 0 1) := by
+  by_cases hg : lines > 0 ∧ g > 0
+  · have hg' : lines > 0 ∧ g' > 0 := ⟨hg.1, by omega⟩
+    unfold duplication
+    rw [if_pos hg, if_pos hg']
+    simp only []
+    have hlk : ∀ x : F, (z : F) < (if x < (Arith.lit 1 1 : F) then (Arith.lit 1 1 : F) else x) := by
+      intro x; split
+      · exact lit_pos (by decide) (by decide)
+      · next hx => exact lt_of_lt_of_le (lit_pos (by decide) (by decide)) (not_lt.mp hx)
+    exact fmin_mono_r _ (mul_le_mul_l _ (lit_le (by decide) (by decide) (by decide)) (div_le_div_l _ (hlk _) (ofInt_le h)))
+  · have : duplication F g lines (Arith.lit 0 1) = (Arith.lit 0 1 : F) := by unfold duplication; rw [if_neg hg]
+    rw [this]; exact (C15_dup_range g' lines).1
+
+open PV.Summary in
+/-- **C15 (final score).** Whatever `calculateSummary` is given — valid or not — the reported health score is in
+[0,100] and graded by 90/75/60/45 (on a validation failure the fallback score and `GetGradeFromScore` are used). -/
+theorem C15_final_range (s : AnalyzeSummary F) (cn : CountsNonneg s) :
+    0 ≤ (finalize F s).HealthScore ∧ (finalize F s).HealthScore ≤ 100 ∧ (finalize F s).Grade = gradeOf (finalize F s).HealthScore := by
+  unfold finalize
+  cases hv : Validate F s
+  · -- valid
+    have hV : Valid s := hv
+    have e1 : (CalculateHealthScore F s).1 = false := by
+      unfold CalculateHealthScore; simp only []; rw [if_neg (by rw [hv]; decide)]
+    have hr := totalPenalty_nonneg s cn
+    have hh := health_eq s hV
+    have hg := C15_grade s hV
+    unfold health grade out at *
+    rcases hc : CalculateHealthScore F s with ⟨err, o⟩
+    rw [hc] at e1 hh hg
+    simp only [] at e1 hh hg
+    subst e1
+    simp only [Bool.false_eq_true, if_false]
+    refine ⟨?_, ?_, hg⟩
+    · rw [hh]; split <;> omega
+    · rw [hh]; split <;> omega
+  · -- invalid: fallback
+    have e1 : (CalculateHealthScore F s).1 = true := (C15_invalid s hv).1
+    rcases hc : CalculateHealthScore F s with ⟨err, o⟩
+    rw [hc] at e1
+    simp only [] at e1
+    subst e1
+    simp only [if_true]
+    have := C15_fallback_range o
+    exact ⟨this.1, this.2, C15_grade_fn _⟩
+
+/-- the four named constants the hand-written `duplication` model spells as literals, as of this run -/
+theorem C15_summary_consts :
+    "GroupDensityLinesUnit = 1000" ∈ PV.Generated.ScoreConsts.consts ∧ "GroupDensityMinLines = 1" ∈ PV.Generated.ScoreConsts.consts ∧
+    "GroupDensityCoefficient = 20" ∈ PV.Generated.ScoreConsts.consts ∧ "DuplicationThresholdHigh = 10" ∈ PV.Generated.ScoreConsts.consts := by
+  simp [PV.Generated.ScoreConsts.consts]
+
+/-- **C15 (source tie for the assembly).** `calculateSummary` as re-extracted from /repo on this run. -/
+theorem C15_summary_facts : PV.Generated.SummaryFacts.calculateSummary = [
+  "if: response.Complexity != nil",
+  "assign: summary.TotalFiles = response.Complexity.Summary.FilesAnalyzed",
+  "assign: summary.AnalyzedFiles = response.Complexity.Summary.FilesAnalyzed",
+  "assign: summary.TotalFunctions = len(response.Complexity.Functions)",
+  "assign: summary.AverageComplexity = response.Complexity.Summary.AverageComplexity",
+  "assign: summary.HighComplexityCount = response.Complexity.Summary.HighRiskFunctions",
+  "if: response.DeadCode != nil",
+  "assign: summary.DeadCodeCount = response.DeadCode.Summary.TotalFindings",
+  "assign: summary.CriticalDeadCode = response.DeadCode.Summary.CriticalFindings",
+  "assign: summary.WarningDeadCode = response.DeadCode.Summary.WarningFindings",
+  "assign: summary.InfoDeadCode = response.DeadCode.Summary.InfoFindings",
+  "if: response.Clone != nil",
+  "assign: summary.TotalClones = response.Clone.Statistics.TotalClones",
+  "assign: summary.ClonePairs = response.Clone.Statistics.TotalClonePairs",
+  "assign: summary.CloneGroups = response.Clone.Statistics.TotalCloneGroups",
+  "assign: totalLines := response.Clone.Statistics.LinesAnalyzed",
+  "assign: groupCount := response.Clone.Statistics.TotalCloneGroups",
+  "if: totalLines > 0 && groupCount > 0",
+  "assign: linesInThousands := float64(totalLines) / domain.GroupDensityLinesUnit",
+  "if: linesInThousands < domain.GroupDensityMinLines",
+  "assign: linesInThousands = domain.GroupDensityMinLines",
+  "assign: groupDensity := float64(groupCount) / linesInThousands",
+  "assign: summary.CodeDuplication = math.Min(domain.DuplicationThresholdHigh, groupDensity*domain.GroupDensityCoefficient)",
+  "if: response.CBO != nil",
+  "assign: summary.CBOClasses = response.CBO.Summary.TotalClasses",
+  "assign: summary.HighCouplingClasses = response.CBO.Summary.HighRiskClasses",
+  "assign: summary.MediumCouplingClasses = response.CBO.Summary.MediumRiskClasses",
+  "assign: summary.AverageCoupling = response.CBO.Summary.AverageCBO",
+  "if: response.LCOM != nil",
+  "assign: summary.LCOMClasses = response.LCOM.Summary.TotalClasses",
+  "assign: summary.HighLCOMClasses = response.LCOM.Summary.HighRiskClasses",
+  "assign: summary.MediumLCOMClasses = response.LCOM.Summary.MediumRiskClasses",
+  "assign: summary.AverageLCOM = response.LCOM.Summary.AverageLCOM",
+  "if: response.System != nil",
+  "if: response.System.DependencyAnalysis != nil",
+  "assign: summary.DepsTotalModules = da.TotalModules",
+  "assign: summary.DepsMaxDepth = da.MaxDepth",
+  "if: da.CircularDependencies != nil",
+  "assign: summary.DepsModulesInCycles = da.CircularDependencies.TotalModulesInCycles",
+  "if: da.CouplingAnalysis != nil",
+  "assign: summary.DepsMainSequenceDeviation = da.CouplingAnalysis.MainSequenceDeviation",
+  "if: response.System.ArchitectureAnalysis != nil",
+  "assign: summary.ArchCompliance = aa.ComplianceScore",
+  "if: err != nil",
+  "assign: summary.HealthScore = summary.CalculateFallbackScore()",
+  "assign: summary.Grade = domain.GetGradeFromScore(summary.HealthScore)"] := rfl
 
 end PV.C15
